@@ -25,7 +25,11 @@ evars == <<kind, phase, left, s, n>>
 
 StrTok == {"a", "X", "7", "-", "_", "P", "A", "/", " ", "N", "@", "."}
 ParTok == {"a", "b", "p", "t", "0", "-", "=", "&", ",", "Q", "[", " ", "@"}
-EditTok == IF kind = "str" THEN StrTok ELSE ParTok
+\* the first edit draws from every character that is in no word class (all ASCII punctuation, blanks, non-ASCII) and
+\* the focused ones; later edits from the characters the grammars care most about (every letter and digit at every
+\* position is the business of the "sweep" cases of ConfigQueryGen)
+Focused == IF kind = "str" THEN StrTok ELSE ParTok
+EditTok == IF n = 0 THEN Focused \cup (Tok \ Word) ELSE Focused
 SegTok == {"a", "X", "7", "-", "_", "P"}
 KeyTok == {"a", "b", "p", "-", "7"}
 ValTok == {"a", "t", "0", ",", "Q", "[", "]", "_"}
